@@ -1,6 +1,7 @@
 """C15 - array, object and string functions obey their sequence/map/string contracts (stateful, model based)."""
 import copy
 import random
+import sys
 import re
 import urllib.parse
 
@@ -561,6 +562,8 @@ ODD_SETUP = ['a0 = arrayNew(1, 2, 3)', "o0 = objectNew('a', 1)", "s0 = 'abcab'",
              "    objectSet(bigO, 'k' + ii, ii)", '    arrayPush(bigA, ii)', '    ii = ii + 1', 'endwhile', "bigS = stringRepeat('abc', 100)", 'inf = 1e+308 * 10',
              'nanv = inf - inf', 'cyA = arrayNew(1)', 'arrayPush(cyA, cyA)', 'cyO = objectNew()', "objectSet(cyO, 'self', cyO)",
              'farD = datetimeNew(9999, 12, 31, 23, 59, 59, 999)']
+# an array nested deeper than the host stack can serialise (the message of the argument error cannot show it); built by a loop, no recursion involved
+DEEP_SETUP = ['deepA = arrayNew(7)', 'jj = 0', 'while jj < 3000:', '    deepA = arrayNew(deepA)', '    jj = jj + 1', 'endwhile']
 VALID_TEXT = {'array': 'a0', 'object': 'o0', 'string': 's0', 'key': "'a'", 'index': '0', 'search': "'a'", 'any': '1', 'code': '65'}
 
 
@@ -570,10 +573,16 @@ def check_odd_wrong(fn, pos, odd):
     sig = [x.lstrip('?*') for x in Machine.SIGNATURES[fn]]
     texts = [VALID_TEXT['key' if t == 'kv' else t] for t in sig]
     texts[pos] = odd
-    src = '\n'.join(ODD_SETUP + ['r = %s(%s)' % (fn, ', '.join(texts))])
+    src = '\n'.join(ODD_SETUP + (DEEP_SETUP if odd == 'deepA' else []) + ['r = %s(%s)' % (fn, ', '.join(texts))])
     for debug in (False, True):
         real, log = {}, []
-        out = impl.run_source(src, real, log, 5000, debug=debug)
+        limit = sys.getrecursionlimit()
+        if odd == 'deepA':
+            sys.setrecursionlimit(1000)        # the host default (the runner raises it for its own reference code)
+        try:
+            out = impl.run_source(src, real, log, 20000, debug=debug)
+        finally:
+            sys.setrecursionlimit(limit)
         if out.kind != 'ok':
             raise Violation('%s(%s) ended the script with %r' % (fn, ', '.join(texts), out), d, 'odd-wrong-raises:' + fn)
         got, want = real.get('r'), rl.FAILURE_VALUES.get(fn)
@@ -594,7 +603,7 @@ def odd_wrong_cases():
     for fn in sorted(Machine.SIGNATURES):
         for pos, t in enumerate(Machine.SIGNATURES[fn]):
             t = t.lstrip('?*')
-            for odd in ODD_WRONG.get(t, []) + (['farD'] if t in ODD_WRONG else []):
+            for odd in ODD_WRONG.get(t, []) + (['farD'] if t in ODD_WRONG else []) + (['deepA'] if t in ('object', 'string', 'key', 'index') else []):
                 yield fn, pos, odd
 
 
